@@ -189,16 +189,28 @@ func (p *netPM) Send(_ peer_mgr.KeyType, m *pb.Message) (*pb.Message, error) {
 	}
 	canon := p.r.canon(uint64(len(p.r.log)))
 	resp := &pb.GetBlocksResponse{}
+	dropped := false
 	for h := req.Start; h <= req.End; h++ {
 		b, ok := canon[h]
 		if !ok {
 			break
+		}
+		if p.r.dropHeight != 0 && h == p.r.dropHeight {
+			// an incomplete answer (the peer does not have this block yet): once
+			dropped = true
+			if h == ^uint64(0) {
+				break
+			}
+			continue
 		}
 		resp.Blocks = append(resp.Blocks, &pb.Block{BlockHeader: &pb.BlockHeader{Number: h}, BlockHash: &types.Hash{},
 			Transactions: mkBatch(h, b.Txs).TxList})
 		if h == ^uint64(0) {
 			break
 		}
+	}
+	if dropped {
+		p.r.dropHeight = 0
 	}
 	d, err := resp.Marshal()
 	if err != nil {
@@ -272,16 +284,17 @@ func (f *fakeRaft) takeProps() [][]byte {
 // ---------------------------------------------------------------------------------- raft driver
 
 type raftRun struct {
-	h       History
-	dir     string
-	real    bool
-	node    *etcdraft.Node
-	fake    *fakeRaft
-	log     []raftpb.Entry // the shared log, entry i has Index i+1 (scripted mode)
-	chain   uint64         // executed height (the harness plays the executor)
-	queue   []Block        // commit events read from Commit() and not yet executed
-	blocks  map[uint64]Block
-	pending []Block // proposals handed to raft and neither appended nor dropped
+	h          History
+	dir        string
+	real       bool
+	node       *etcdraft.Node
+	fake       *fakeRaft
+	log        []raftpb.Entry // the shared log, entry i has Index i+1 (scripted mode)
+	chain      uint64         // executed height (the harness plays the executor)
+	queue      []Block        // commit events read from Commit() and not yet executed
+	blocks     map[uint64]Block
+	pending    []Block // proposals handed to raft and neither appended nor dropped
+	dropHeight uint64  // the peer leaves this height out of one answer
 }
 
 func writeOrderToml(dir string, h History) error {
@@ -526,6 +539,9 @@ func (r *raftRun) step(op []interface{}) (Step, error) {
 			st.R = []uint64{9}
 			break
 		}
+		if len(op) > 2 && num(op[2]) > 0 {
+			r.dropHeight = sN.LastExec + num(op[2])
+		}
 		cm := pb.ChainMeta{Height: hh}
 		data, _ := cm.Marshal()
 		rd := raft.Ready{
@@ -543,6 +559,7 @@ func (r *raftRun) step(op []interface{}) (Step, error) {
 			return st, fmt.Errorf("no advance after snapshot")
 		}
 		r.sync()
+		r.dropHeight = 0
 		st.R = []uint64{1, idx, hh}
 	case "exec": // the executor takes the next commit event
 		if len(r.queue) == 0 {
